@@ -20,7 +20,7 @@ use s4lib::data::datetime::{slice_contains_D2, slice_contains_X_2, slice_contain
 const ROWS_TXT: &str = include_str!("rgx_rows.txt");
 
 #[derive(Debug, Clone)]
-enum Ast {
+pub(crate) enum Ast {
     Eps,
     Bol,
     Eol,
@@ -32,11 +32,11 @@ enum Ast {
     Grp(Box<Ast>),
 }
 
-struct Row {
-    idx: usize,
+pub(crate) struct Row {
+    pub(crate) idx: usize,
     start: usize,
     end: usize,
-    ast: Ast,
+    pub(crate) ast: Ast,
     tests: Vec<Vec<u8>>,
 }
 
@@ -86,7 +86,7 @@ fn parse_ast(toks: &[&str], pos: &mut usize) -> Ast {
     }
 }
 
-fn load_rows() -> Vec<Row> {
+pub(crate) fn load_rows() -> Vec<Row> {
     let mut rows: Vec<Row> = vec![];
     for l in ROWS_TXT.lines() {
         if l.starts_with('#') || l.is_empty() {
